@@ -129,7 +129,10 @@ func (a *aggregate) Next(ctx context.Context) ([]model.StepVector, error) {
 		for i := range a.params {
 			a.params[i] = math.NaN()
 			if i < len(args) {
-				a.params[i] = args[i].Samples[0]
+				// A scalar parameter without a sample at this step is NaN.
+				if len(args[i].Samples) > 0 {
+					a.params[i] = args[i].Samples[0]
+				}
 				a.paramOp.GetPool().PutStepVector(args[i])
 			}
 		}
